@@ -21,6 +21,7 @@ import (
 	"k8s.io/client-go/tools/record"
 
 	"volcano.sh/apis/pkg/apis/scheduling"
+	schedulingv1beta1 "volcano.sh/apis/pkg/apis/scheduling/v1beta1"
 	"volcano.sh/volcano/pkg/scheduler/api"
 	"volcano.sh/volcano/pkg/scheduler/cache"
 	"volcano.sh/volcano/pkg/scheduler/conf"
@@ -100,6 +101,7 @@ type VJob struct {
 type VTask struct {
 	ID, Job, CPU, Mem, GPU, Status int64
 	Gated bool // the pod carries a (non-Volcano) scheduling gate; not part of the vote-case wire format
+	Annot bool // the pod carries the queue-allocation-gate annotation (opted in, gate already removed)
 }
 type VReq struct{ CPU, Mem, GPU int64 }
 type VQuery struct {
@@ -304,6 +306,9 @@ func openVotes(s VSpec) *voteWorld {
 		pod := ts.Pod()
 		if t.Gated {
 			pod.Spec.SchedulingGates = []v1.PodSchedulingGate{{Name: "example.com/hold"}}
+		}
+		if t.Annot {
+			pod.Annotations[schedulingv1beta1.QueueAllocationGateKey] = "true"
 		}
 		ti := api.NewTaskInfo(pod)
 		if t.Gated && !ti.SchGated {
